@@ -17,6 +17,9 @@ public API calls with faults interleaved.  After every operation:
                            and OpenMP thread limits / errcall / recursion limit
   O7 late re-execution     a sample of the calls is repeated at the end of
                            the session: same result as the first time
+  O8 interleaving-free     two calls issued by two caller threads under a
+                           seeded schedule of pre-emptions (sim/interleave.py)
+                           each give the result of the call made alone
 (+ O3-process-history: a sample of whole runs is repeated in a pristine
    process, see driver.cross_process_check)
 """
@@ -26,7 +29,7 @@ import json
 
 import numpy as np
 
-from . import data, digest as dg, models, ops, seams
+from . import data, digest as dg, interleave, models, ops, seams
 from .seams import SimulatedCancel, SimulatedInterrupt
 
 PROPERTY = 'C20'
@@ -324,6 +327,9 @@ def _entry_label(name, a):
         return 'ComplexAngularCentralGaussian.from_covariance'
     if name == 'recycle':
         return 'recycle:' + _entry_label(a['target'], a['a'])
+    if name == 'concurrent':
+        return 'concurrent:' + '|'.join(_entry_label(x['op'], x['a'])
+                                        for x in a['subs'])
     if name.endswith('.fit') and 'method' in a:
         return f'{name[:-4]}.{a["method"]}'
     return name
@@ -360,8 +366,177 @@ def run_op(world, idx, op):
         return _run_op(world, idx, op)
 
 
+# entry points two caller threads may use at the same time (nothing that
+# draws from the process-global RNG: sharing that generator between threads is
+# the caller's own race)
+CONCURRENT_ENTRIES = [
+    'cacgmm.fit', 'cwmm.fit', 'cbmm.fit', 'gmm.fit', 'vmfmm.fit',
+    'gcacgmm.fit', 'vmfcacgmm.fit', 'watson.fit', 'gaussian.fit', 'vmf.fit',
+    'bingham.fit', 'cacg.fit', 'ccsg.fit', 'model.predict',
+    'model.log_likelihood', 'model.component_log_pdf', 'dist.log_pdf',
+    'cacg.from_covariance', 'watson.direct', 'normalize_observation',
+    'mmu.log_pdf_to_affiliation', 'mmu.estimate_mixture_weight',
+    'mmu.apply_inline_permutation_alignment', 'dutils.misc',
+    'initializer.flag', 'bf.psd', 'bf.get_bf_vector', 'bf.primitives',
+    'mask', 'pa.aligner', 'pa.functions', 'metric', 'metric.wrapper',
+    'bf.utils',
+]
+
+
+def gen_concurrent(g):
+    """Two calls for two caller threads plus the schedule of pre-emptions."""
+    for _ in range(6):
+        n1 = g.choice(CONCURRENT_ENTRIES)
+        a1 = ops.ENTRIES[n1].gen(g)
+        if a1 is None or 'num_classes' in a1:
+            continue
+        if g.coin(0.7):
+            # the same kind of call with other data: same trainer class and
+            # dimension, same aligner configuration, same model
+            n2, a2 = n1, ops._reseed(g, a1)
+            if 'model' in a2 and 'seed' in a2:
+                a2['seed'] = g.seed()
+                a2['other_data'] = True
+        else:
+            n2 = g.choice(CONCURRENT_ENTRIES)
+            a2 = ops.ENTRIES[n2].gen(g)
+            if a2 is None or 'num_classes' in a2:
+                continue
+        n_sw = int(g.choice([1, 2, 3, 5, 8, 13, 21, 34]))
+        schedule = [int(10 ** g.rng.uniform(0, 2.7)) for _ in range(n_sw)]
+        return {'subs': [{'op': n1, 'a': a1}, {'op': n2, 'a': a2}],
+                'schedule': schedule, 'first': int(g.rng.randint(2)),
+                'share': g.choice(['shared', 'shared', 'separate'])}
+    return None
+
+
+def _run_concurrent(world, idx, op):
+    a = op['a']
+    subs = a['subs']
+    shared = a['share'] == 'shared'
+    labels = [_entry_label(s['op'], s['a']) for s in subs]
+    md_before = world.model_digests()
+    rng0 = seams.rng_get()
+    # each call made alone, on fresh objects
+    refs = []
+    for sub in subs:
+        seams.rng_set(rng0)
+        refs.append(call(sub['op'], Ctx(world, replica=True), sub['a'], None))
+    if any(r.kind in ('skipped', 'impure') for r in refs):
+        world.log.append([idx, 'concurrent', 'skipped'])
+        world.sched.append('skip')
+        seams.rng_set(rng0)
+        return
+    seams.rng_set(rng0)
+    gs0 = seams.global_state_snapshot()
+    ctxs = [Ctx(world, replica=not shared) for _ in subs]
+    err = dict(np.geterr())
+
+    def body(sub, ctx):
+        def fn():
+            np.seterr(**err)      # the error state of the calling program
+            return call(sub['op'], ctx, sub['a'], None)
+        return fn
+
+    il = interleave.Interleaver(a['schedule'], a['first'])
+    res = il.run([body(s_, c_) for s_, c_ in zip(subs, ctxs)])
+    for r in res:
+        if r[0] != 'ok':
+            raise RuntimeError(f'harness: caller thread died: {r[1]!r}')
+    outs = [r[1] for r in res]
+    rng1 = seams.rng_get()
+    gs1 = seams.global_state_snapshot()
+    name = 'concurrent'
+    world.count('concurrent_ops')
+    world.count('context_switches', len(il.switches))
+    world.count('ops_executed')
+    for sw in il.switches:
+        world.add('preemption_sites', f'{sw[1]}:{sw[2]}')
+    world.add('interleavings', dg.digest([labels, il.switches]))
+    for lab in labels:
+        world.add('entry_points', lab)
+        world.add('entry_points_run_concurrently', lab)
+    prior_other_dim = False
+    reused = False
+    if shared:
+        for ctx in ctxs:
+            for kind, dim in ctx.used:
+                if world.trainer_uses.get(kind, 0):
+                    reused = True
+                if dim is not None and any(
+                        d != dim for d in world.trainer_dims.get(kind, [])):
+                    prior_other_dim = True
+        dims = {}
+        for ctx in ctxs:
+            for kind, dim in ctx.used:
+                dims.setdefault(kind, set()).add(dim)
+        if any(len(v) > 1 for v in dims.values()):
+            prior_other_dim = True     # the two calls themselves disagree
+    if reused:
+        world.reuse_ops += 1
+    # ---- O1 / O5 / O6 around the pair
+    changed = world.changed_inputs(md_before)
+    if changed:
+        _viol(world, 'O1', idx, name, a,
+              f'caller-visible arrays modified: {changed[:4]}')
+    if gs1 != gs0:
+        _viol(world, 'O6', idx, name, a,
+              f'global numpy state changed: {gs0} -> {gs1}')
+    if not _rng_equal(rng0, rng1):
+        _viol(world, 'O5', idx, name, a,
+              'calls without randomness in their contract advanced the '
+              'global RNG')
+    # ---- O8 every call gives the result of the call made alone
+    for i, (out, ref) in enumerate(zip(outs, refs)):
+        if world.violations:
+            break
+        other = labels[1 - i]
+        how = ('sharing trainer / aligner / model objects with it'
+               if shared else 'on objects of its own')
+        if out.kind == 'skipped':
+            continue      # its model reference does not exist in this pool
+        if out.kind == 'impure':
+            _viol(world, 'O8', idx, name, a, f'{labels[i]}: {out.exc}')
+        elif out.cls() != ref.cls():
+            if out.kind == 'raised' and prior_other_dim:
+                world.count('probe:dimension_reject_path')
+                continue
+            _viol(world, 'O8', idx, name, a,
+                  f'{labels[i]} called while another caller thread runs '
+                  f'{other} ({how}) gives {out.cls()}'
+                  + (f' ({str(out.exc)[:160]})' if out.exc else '')
+                  + f' instead of {ref.cls()} when called alone',
+                  switches=len(il.switches))
+        elif out.kind == 'ok':
+            d = dg.first_difference(out.value, ref.value, 'result')
+            if d:
+                _viol(world, 'O8', idx, name, a,
+                      f'{labels[i]} called while another caller thread runs '
+                      f'{other} ({how}) differs from the same call made '
+                      f'alone: {d}', switches=len(il.switches))
+            else:
+                world.count('interleaved_results_compared')
+    if shared:
+        for ctx in ctxs:
+            for kind, dim in ctx.used:
+                world.trainer_uses[kind] = world.trainer_uses.get(kind, 0) + 1
+                if dim is not None:
+                    world.trainer_dims.setdefault(kind, []).append(dim)
+            for key in ctx.used_aligners:
+                world.aligner_uses[key] = world.aligner_uses.get(key, 0) + 1
+    world.log.append([idx, 'concurrent', labels, [o.cls() for o in outs],
+                      [dg.digest(o.value) if o.kind == 'ok' else None
+                       for o in outs],
+                      dg.digest(il.switches), list(il.events)])
+    world.sched.append(('concurrent', tuple(labels), a['share'],
+                        len(il.switches), tuple(o.cls() for o in outs)))
+    seams.rng_set(rng1)
+
+
 def _run_op(world, idx, op):
     name = op['op']
+    if name == 'concurrent':
+        return _run_concurrent(world, idx, op)
     if name == 'env.draws':
         np.random.uniform(size=op['k'])
         world.count('foreign_draws')
@@ -711,7 +886,8 @@ def execute(program):
         json.dumps(world.log, default=str).encode()).hexdigest()[:24]
     world.count('ops', len(program['ops']))
     nontrivial = (world.reuse_ops >= 3 or world.faults_fired >= 1
-                  or world.boundaries >= 1)
+                  or world.boundaries >= 1
+                  or world.counters.get('context_switches', 0) >= 1)
     return {
         'digest': digest, 'signature': sig, 'nontrivial': nontrivial,
         'log': json.loads(json.dumps(world.log, default=str)),
@@ -802,7 +978,16 @@ def generate(run_seed, tier='quick'):
                 g.models.append((len(program_ops) - 1, rm))
         return True
 
+    p_conc = float(g.choice([0.0, 0.0, 0.1, 0.3]))
+
+    def concurrent_op():
+        if p_conc and g.coin(p_conc):
+            a = gen_concurrent(g)
+            if a is not None:
+                program_ops.append({'op': 'concurrent', 'a': a, 'fault': None})
+
     def env_ops():
+        concurrent_op()
         if g.coin(0.12):
             program_ops.append({'op': 'env.draws', 'k': int(rng.randint(1, 40))})
         if g.coin(0.04):
@@ -942,6 +1127,8 @@ def _ref_holders(a):
     out = [a]
     if isinstance(a.get('a'), dict):
         out.append(a['a'])
+    for sub in a.get('subs', ()):
+        out.append(sub['a'])
     return out
 
 
@@ -990,6 +1177,18 @@ def shrink_candidates(program):
         q = copy.deepcopy(program)
         q['trainer_kwargs'] = {}
         yield q
+    for i, op in enumerate(program['ops']):
+        if op.get('op') == 'concurrent':
+            sch = op['a']['schedule']
+            for new in ([], sch[:len(sch) // 2], sch[:-1], sch[1:]):
+                if len(new) < len(sch):
+                    q = copy.deepcopy(program)
+                    q['ops'][i]['a']['schedule'] = new
+                    yield q
+            if op['a']['share'] == 'shared':
+                q = copy.deepcopy(program)
+                q['ops'][i]['a']['share'] = 'separate'
+                yield q
     def edit(i, fn):
         """Apply ``fn(target_dict)`` to op i and -- for a split job -- to every
         segment sharing the same base (a job's segments must keep identical
@@ -1152,6 +1351,72 @@ def _enum_lapack_c20(op, func, ks):
     return res
 
 
+def _fixed_pairs(tier):
+    """Pairs of small calls for the complete single-pre-emption enumeration:
+    caller thread 0 runs k line events, caller thread 1 then runs its whole
+    call, thread 0 finishes -- for every k (and the mirror image)."""
+    rng = np.random.RandomState(20204)
+    g = ops.G(rng, [3], False)
+    pairs = []
+    spec = {'kind': 'dhtv', 'stft_size': 16, 'segment_start': 2,
+            'segment_width': 3, 'segment_shift': 1, 'main_iterations': 2,
+            'sub_iterations': 1, 'similarity_metric': 'cos',
+            'algorithm': 'greedy'}
+    mk = lambda: {'op': 'pa.aligner', 'a': {                      # noqa
+        'aligner': spec, 'method': 'call',
+        'mask': g.arr('affiliation', [2, 9, 6], reuse=False)}}
+    pairs.append((mk(), mk()))
+    kinds = ['cwmm', 'cacgmm'] if tier != 'thorough' else \
+        ['cwmm', 'cacgmm', 'cbmm', 'gmm', 'vmfmm', 'gcacgmm', 'vmfcacgmm']
+    for kind in kinds:
+        for _ in range(20):
+            a1 = ops.gen_mm_fit(g, kind, method='fit',
+                                D=3 if kind != 'cbmm' else 2,
+                                iterations=2 if kind != 'cbmm' else 1)
+            if 'num_classes' not in a1 and 'aligner' not in a1:
+                break
+        pairs.append(({'op': kind + '.fit', 'a': a1},
+                      {'op': kind + '.fit', 'a': ops._reseed(g, a1)}))
+    Dq, Fq, pair = ops._psd_pair(g)
+    a1 = dict(pair, name='gev+ban', kw={})
+    pairs.append(({'op': 'bf.get_bf_vector', 'a': a1},
+                  {'op': 'bf.get_bf_vector', 'a': ops._reseed(g, a1)}))
+    if tier == 'thorough':
+        for kind in ('watson', 'bingham', 'gaussian'):
+            a1 = ops.gen_dist_fit(g, kind, D=3 if kind != 'bingham' else 2)
+            pairs.append(({'op': kind + '.fit', 'a': a1},
+                          {'op': kind + '.fit', 'a': ops._reseed(g, a1)}))
+        a1 = ops.ENTRIES['mask'].gen(g)
+        pairs.append(({'op': 'mask', 'a': a1},
+                      {'op': 'mask', 'a': ops._reseed(g, a1)}))
+        a1 = ops.ENTRIES['metric'].gen(g)
+        a1['which'] = 'input_sxr_dict'
+        pairs.append(({'op': 'metric', 'a': a1},
+                      {'op': 'metric', 'a': ops._reseed(g, a1)}))
+    return pairs
+
+
+def _preempt_worker(pair, first, positions):
+    from . import driver
+    if 'ok' not in driver._INIT:
+        driver._worker_init()
+    res = []
+    for k in positions:
+        program = {'prop': 'C20', 'mode': 'enum', 'rng_seed': 1,
+                   'trainer_kwargs': {}, 'tier': 'enum', 'ops': [{
+                       'op': 'concurrent', 'fault': None,
+                       'a': {'subs': [copy.deepcopy(pair[0]),
+                                      copy.deepcopy(pair[1])],
+                             'schedule': [int(k)], 'first': first,
+                             'share': 'shared'}}]}
+        r = execute(program)
+        res.append((k, r['violations'],
+                    r['counters'].get('context_switches', 0),
+                    r['sets'].get('preemption_sites', []),
+                    program if r['violations'] else None))
+    return res
+
+
 def _enum_worker(op, positions):
     from . import driver
     if 'ok' not in driver._INIT:
@@ -1196,6 +1461,29 @@ def fixed_catalogue(tier, workers, log):
             for s in range(0, len(positions), step):
                 futs.append((label, pool.submit(
                     _enum_worker, op, positions[s:s + step])))
+        # complete single-pre-emption enumeration of pairs of calls
+        pairs = _fixed_pairs(tier)
+        pre_futs = []
+        pre_entries = []
+        for pair in pairs:
+            for first in (0, 1):
+                sub = pair[first]
+                n_events = _count_events({'op': sub['op'], 'a': sub['a'],
+                                          'fault': None})[0]
+                if n_events > ENUM_CAP:
+                    positions = sorted(set(int(x) for x in np.linspace(
+                        1, n_events, ENUM_SAMPLE)))
+                else:
+                    positions = list(range(1, n_events + 1))
+                pre_entries.append({
+                    'pair': [_entry_label(x['op'], x['a']) for x in pair],
+                    'preempted_caller': first, 'line_events': n_events,
+                    'positions_enumerated': len(positions),
+                    'complete': len(positions) == n_events})
+                step = max(1, len(positions) // (2 * workers) + 1)
+                for s_ in range(0, len(positions), step):
+                    pre_futs.append(pool.submit(
+                        _preempt_worker, pair, first, positions[s_:s_ + step]))
         lap_counts = list(pool.map(_count_lapack_c20, catalogue))
         lap_futs = []
         for op, cnt in zip(catalogue, lap_counts):
@@ -1209,6 +1497,15 @@ def fixed_catalogue(tier, workers, log):
                 for v in viols:
                     v = dict(v, enumerated_position=n)
                     violations.append((-1, program, v))
+        pre_total = pre_switched = 0
+        pre_sites = set()
+        for f in pre_futs:
+            for k, viols, switched, psites, program in f.result():
+                pre_total += 1
+                pre_switched += 1 if switched else 0
+                pre_sites.update(psites)
+                for v in viols:
+                    violations.append((-1, program, dict(v, preempted_after=k)))
         lap_total = lap_fired = lap_absorbed = 0
         lap_per_func = {}
         for f in lap_futs:
@@ -1226,8 +1523,21 @@ def fixed_catalogue(tier, workers, log):
         f'({len(sites)} distinct file:line sites), {lap_total} LAPACK fault '
         f'positions {lap_per_func} ({lap_fired} fired, {lap_absorbed} absorbed), '
         f'{len(violations)} violations, {time.time() - t0:.1f}s')
+    log(f'# C20 fixed catalogue: {len(pairs)} pairs of calls, {pre_total} '
+        f'single pre-emption points enumerated ({pre_switched} switched, '
+        f'{len(pre_sites)} distinct file:line sites)')
     return {
-        'coverage': {'interrupt_enumeration': {
+        'coverage': {'preemption_enumeration': {
+            'exhaustive_over': 'for each catalogue pair of calls on shared '
+                               'trainer / aligner objects and each of the two '
+                               'callers: every number k of Python line events '
+                               'inside pb_bss after which the caller is '
+                               'pre-empted, the other caller runs its whole '
+                               'call, the first one finishes (O1, O5, O6, O8)',
+            'pairs': len(pairs), 'positions': pre_total,
+            'switched': pre_switched, 'distinct_sites': len(pre_sites),
+            'per_entry': pre_entries,
+        }, 'interrupt_enumeration': {
             'exhaustive_over': 'every Python line event inside pb_bss of '
                                'each catalogue operation; each crash is '
                                'followed by the same operation fault-free on '
